@@ -1287,6 +1287,29 @@ namespace bloch::runtime {
             for (const auto& v : cls->staticStorage) markValue(v);
         }
         markValue(m_returnValue);
+        // Objects referenced from outside the heap graph are roots too: besides variables and
+        // statics these are C++ temporaries the interpreter is holding right now (an argument
+        // already evaluated while a later one is still being computed, the object under
+        // construction, a returned value not yet stored). Every strong reference that is not
+        // a field of another heap object (nor our own copy in 'objects') is such a reference.
+        {
+            std::unordered_map<Object*, long> heldByFields;
+            for (auto& obj : objects) {
+                for (const auto& f : obj->fields) {
+                    if (f.type == Value::Type::Object && f.objectValue)
+                        heldByFields[f.objectValue.get()]++;
+                    else if (f.type == Value::Type::ObjectArray)
+                        for (const auto& o : f.objectArray)
+                            if (o)
+                                heldByFields[o.get()]++;
+                }
+            }
+            for (auto& obj : objects) {
+                long external = obj.use_count() - 1 - heldByFields[obj.get()];
+                if (external > 0)
+                    markObject(obj);
+            }
+        }
         // Sweep unmarked non-tracked objects
         std::vector<std::shared_ptr<Object>> unreachable;
         for (auto& obj : objects) {
